@@ -311,6 +311,10 @@ class X:
             if it != "world":
                 fail(e, "ranking-table key of type %r" % (it,))
             return name, t[1], b + ib + [(name, "wdict_get %s %s" % (c, i), "cbind")]
+        if isinstance(t, tuple) and t[0] == "opt" and isinstance(t[1], tuple) and t[1][0] == "tuple" and isinstance(e.slice, ast.Constant) and isinstance(e.slice.value, int):
+            n2 = self.ctx.fresh()
+            b = b + [(n2, "py_unsome %s" % c, "cbind")]
+            c, t = n2, t[1]
         if isinstance(t, tuple) and t[0] == "tuple" and isinstance(e.slice, ast.Constant) and isinstance(e.slice.value, int):
             n = len(t[1])
             k = e.slice.value
@@ -1071,6 +1075,17 @@ class X:
             if ft != "form":
                 fail(e, "eval of %r" % (ft,))
             return "(eval %s %s)" % (c, fc), "bool", b + fb
+        if t == "form" and not e.keywords:
+            if f.attr == "is_symbol" and not e.args:
+                return "(f_is_symbol %s)" % c, "bool", b
+            if f.attr == "is_not" and not e.args:
+                return "(f_is_not %s)" % c, "bool", b
+            if f.attr == "symbol_name" and not e.args:
+                nm = self.ctx.fresh()
+                return nm, "int", b + [(nm, "f_symbol_name %s" % c, "cbind")]
+            if f.attr == "arg" and len(e.args) == 1 and isinstance(e.args[0], ast.Constant) and e.args[0].value == 0:
+                nm = self.ctx.fresh()
+                return nm, "form", b + [(nm, "f_arg0 %s" % c, "cbind")]
         if t == "pool" and f.attr == "id" and len(e.args) == 1 and not e.keywords:
             fn = self.ctx.table.get("@pool_id")
             kc, kt, kb = self.tx(e.args[0], env)
@@ -1285,6 +1300,29 @@ class B:
             if isinstance(s, ast.If) and self.is_logging_if(s):
                 continue
             if isinstance(s, ast.Pass):
+                continue
+            # ---- try: x = d[k]; ... except KeyError: return v    (only dictionary look-ups inside, so only KeyError can arise)
+            if isinstance(s, ast.Try):
+                if (s.orelse or s.finalbody or len(s.handlers) != 1 or not isinstance(s.handlers[0].type, ast.Name) or s.handlers[0].type.id != "KeyError"
+                        or s.handlers[0].name is not None or len(s.handlers[0].body) != 1 or not isinstance(s.handlers[0].body[0], ast.Return)):
+                    fail(s, "try statement of this shape")
+                hcode, hb = self.ret(s.handlers[0].body[0], env)
+                if hb:
+                    fail(s, "handler with effects")
+                for a in s.body:
+                    if not (isinstance(a, ast.Assign) and len(a.targets) == 1 and isinstance(a.targets[0], ast.Name) and isinstance(a.value, ast.Subscript)
+                            and isinstance(a.value.value, ast.Name) and a.value.value.id in env and isinstance(env[a.value.value.id], tuple)
+                            and env[a.value.value.id][0] == "dict"):
+                        fail(a, "statement inside try other than a dictionary look-up")
+                    dn = a.value.value.id
+                    kc, kt, kb = self.x.tx(a.value.slice, env)
+                    if kt != "int":
+                        fail(a, "dictionary key of type %r" % (kt,))
+                    # the key is computed before the look-up; it raises nothing the handler would catch
+                    binds_in(kb)
+                    nm = a.targets[0].id
+                    env[nm] = env[dn][1]
+                    binds_in([(v(nm), "zdict_find %s %s) (Return %s" % (v(dn), kc, hcode), "try_key")])
                 continue
             # ---- return
             if isinstance(s, ast.Return):
@@ -1741,6 +1779,12 @@ class B:
             ty = ("tuple", tuple(ts)) if rest else ft
             fn.ret = unify(fn.ret, ty)
             return ("(" + ", ".join(cs) + ")") if rest else fc, binds
+        if isinstance(fn.ret, tuple) and fn.ret[0] == "opt":
+            if isinstance(s.value, ast.Constant) and s.value.value is None:
+                return "None", []
+            c, t, b = self.x.tx(s.value, env)
+            unify(fn.ret[1], t)
+            return "(Some %s)" % c, b
         c, t, b = self.x.tx(s.value, env)
         if fn.ret == "optint":
             c, t = coerce(c, t, "optint")
@@ -2098,7 +2142,8 @@ TARGETS = [
         Fn("encoding", "py_crev_encoding", [("gammas", ("dict", ("tuple", ("iterm", "iterm")))), ("vSums", ("dict", ("list", "iterm"))), ("fSums", ("dict", ("list", "iterm")))]),
         Fn("translate_to_csp", "py_translate_to_csp", [("compilation", ("tuple", (("dict", ("list", TRIPLE)), ("dict", ("list", TRIPLE))))), ("gamma_plus_zero", "bool"),
                                                         ("fixed_gamma_plus", "none"), ("fixed_gamma_minus", "none")]),
-        Fn("_extract_cond_masks", "m_extract_masks", [("cond", "cond"), ("sig_index", ("dict", "int"))], ret=("opt", ("tuple", ("int", "int", "int", "int"))), abstract=True),
+        Fn("_literal_info", "py_literal_info", [("node", "form")], ret=("opt", ("tuple", ("int", "int")))),
+        Fn("_extract_cond_masks", "py_extract_cond_masks", [("cond", "cond"), ("sig_index", ("dict", "int"))], ret=("opt", ("tuple", ("int", "int", "int", "int")))),
         Fn("compile_alt_fast", "py_compile_alt_fast", [("ranking_function", "preocf_s"), ("revision_conditionals", ("list", "cond"))],
            locals_={"vMin": ("dict", ("list", TRIPLE)), "fMin": ("dict", ("list", TRIPLE)), "accepted_list": ("list", "int"), "rejected_list": ("list", "int"),
                     "cond_masks": ("dict", ("opt", ("tuple", ("int", "int", "int", "int"))))}, narrow=["mask"]),
